@@ -388,6 +388,14 @@ inductive Instr where
   | ret
 deriving Repr
 
+/-- the primitive whose flag check guards the instruction. -/
+def Instr.prim? : Instr → Option Prim
+  | .prim p => some p
+  | .call p _ _ => some p
+  | .loadScript p _ => some p
+  | .nativeCall p _ => some p
+  | .ret => Option.none
+
 inductive EffKind where
   | write | notify | call
 deriving DecidableEq, Repr
